@@ -390,4 +390,21 @@ CHECKS = {
             job("driver", "c19", ["TestC19Driver"], 200, 3000, 3, 10, race=True),
         ],
     },
+    "C20": {
+        "level": "exploration",
+        "manifest": {
+            "technique": "randomised concurrent execution under the race detector, driven by the property-based harness: rapid generates plans of 2-16 goroutines x 1-8 operations (native selects / index searches / primary key lookups on rowid and WITHOUT ROWID tables, low-level scans and Schema under explicit RLock, sql.Parse, comparator calls, Open/Close churn, database/sql queries on a shared pool) over three shared files, with GOMAXPROCS 1..16 and optional yields inside row callbacks; every result must equal the result of the same operation run alone",
+            "level_text": "Generated plans, oracle = the operation's own sequential result (computed first in the same process) plus the Go race detector (the check binary is built with -race; any report fails the run). Interleavings are whatever the Go scheduler produces for the generated GOMAXPROCS / yield settings; not enumerated, not reproducible schedule-by-schedule.",
+            "level_note": "Each goroutine uses its own native handles (the documented usage); the database/sql pool is shared, as database/sql intends. No writer runs, so the per-process nature of POSIX locks (C06's known finding) does not affect results here.",
+        },
+        "rule": ("plan = GOMAXPROCS in {1,2,4,8,16} x 2-16 workers x 1-8 operations each, operation kinds drawn from 15 kinds, files from 3 (5 / 60 / 700 rows; page sizes 512 / 1024 / 4096). "
+                 "Non-trivial = at least two goroutines use the same file. Distinct = fingerprint of the plan."),
+        "assumptions": ["the Go race detector sees the accesses of the interleavings that actually happen"],
+        "min_nontrivial": {"quick": 60, "thorough": 1500},
+        "required_classes": ["procs=1", "procs=16", "same-file=true", "yield=true", "workers<=16"],
+        "timeout": {"quick": 500, "thorough": 2400},
+        "jobs": [
+            job("concurrent", "c20", ["TestC20Concurrent"], 40, 500, 3, 8, race=True, shrinktime="5s"),
+        ],
+    },
 }
